@@ -9,6 +9,8 @@ mod crash;
 mod toolcheck;
 mod exec;
 mod faults;
+mod lin;
+mod tools_phase;
 mod gen;
 mod gen2;
 mod gen3;
@@ -33,6 +35,14 @@ fn main() {
     let args: Vec<String> = std::env::args().collect();
     if args.len() < 2 {
         usage();
+    }
+    if std::env::var("SIM_WATCH").is_ok() {
+        std::thread::spawn(|| loop {
+            std::thread::sleep(std::time::Duration::from_secs(3));
+            let u = exec::WATCH_UID.load(std::sync::atomic::Ordering::Relaxed);
+            let p = exec::WATCH_POLLS.load(std::sync::atomic::Ordering::Relaxed);
+            eprintln!("watch: client {} uid {} polls {} jobs {} sim_ms {} seq {}", u >> 32, u & 0xffff_ffff, p, exec::WATCH_JOBS.load(std::sync::atomic::Ordering::Relaxed), exec::WATCH_SIMMS.load(std::sync::atomic::Ordering::Relaxed), exec::WATCH_SEQ.load(std::sync::atomic::Ordering::Relaxed));
+        });
     }
     let seed: u64 = std::env::var("VERIF_SEED").ok().and_then(|s| s.parse().ok()).unwrap_or(1);
     match args[1].as_str() {
@@ -129,6 +139,16 @@ fn main() {
                 println!("{} x{} rule={} cause={}\n     first: profile={} seed={} ops={} detail={}", p, n, r, c, profile, s, ops, d);
             }
         }
+        "plan" => {
+            let plan = gen::gen_plan(&args[2], &args[3], args[4].parse().unwrap());
+            println!("{}", serde_json::to_string_pretty(&plan).unwrap());
+        }
+        "seedof" => {
+            let spec = checks::spec_for(&args[2]).unwrap_or_else(|| usage());
+            let i: u64 = args[3].parse().unwrap();
+            let profile = batch::profile_for(&spec, i);
+            println!("{} {}", profile, batch::plan_seed(seed, &spec.property, profile, i));
+        }
         "list" => {
             for p in checks::ALL {
                 if checks::spec_for(p).is_some() {
@@ -147,7 +167,14 @@ fn main() {
                 let profile = batch::profile_for(&spec, i);
                 let s = batch::plan_seed(seed, &spec.property, profile, i);
                 let plan = gen::gen_plan(&spec.property, profile, s);
+                if std::env::var("SIM_WATCH").is_ok() {
+                    eprintln!("run {} {} {}", i, profile, s);
+                }
+                let t0 = std::time::Instant::now();
                 let out = exec::run_plan(&plan, &exec::RunOpts::default());
+                if std::env::var("SIM_WATCH").is_ok() && t0.elapsed().as_secs() >= 5 {
+                    eprintln!("  slow run {} took {}s", i, t0.elapsed().as_secs());
+                }
                 println!("{} {} {:016x} {} {}", i, profile, out.sig, out.events, out.violations.len());
             }
         }
